@@ -655,7 +655,7 @@ def run(tier, seed, replay=None):
         "coverage.impl_line_coverage: source lines of /repo executed by this run's inputs (interpreted re-execution of the numba functions' source under sys.settrace in the workers)",
         "harness/compat.py import shim; numpy/numba/CPython/BLAS",
     ]
-    R.check_proofs(PROOF_FILES, build_targets=["theories/Props/C03.vo", "theories/Model/ShapesRun.vo",
+    sc.check_proofs_retry(R, PROOF_FILES, build_targets=["theories/Props/C03.vo", "theories/Model/ShapesRun.vo",
                                                "theories/Checker/ShapesCert.vo", "theories/Checker/ShapesMeshCone.vo"])
 
     cases = []
